@@ -764,6 +764,12 @@ theorem idxExact_tab3 : IdxExact tab3 := by
     exact h
   exact idxExact_insertT _ _ (idxExact_insertT _ _ (idxExact_insertT _ _ h0))
 
+/-- `tab3` after an earlier statement of the transaction has set column 1 of row 2 to 4 -/
+def tab3b : Table := updateT tab3 2 { alive := true, vals := [2, 0] } [(1, 4)]
+
+theorem idxExact_tab3b : IdxExact tab3b :=
+  idxExact_updateT tab3 2 _ _ idxExact_tab3 (by decide) rfl (by decide) (by decide)
+
 /-- what a table answers: the scan, `c0 = 1` through the hash index, `c0 >= 0` and `c0 <= 1` through the b-tree -/
 def answers (s : State) : Option (List (List (Nat × List Val))) :=
   (s.tables 0).map fun T => [scanAnswer T .all, select T (.eq 0 1), select T (.ge 0 0), select T (.le 0 1)]
